@@ -11,6 +11,8 @@
   proofs split on membership / equality with the distinguished texts, they do not enumerate.
 -/
 import DeepModel.Proofs.TriggerBuild
+import DeepModel.Extracted.TpArgs
+import DeepModel.Extracted.Limiter
 
 set_option linter.unusedSimpArgs false
 
@@ -247,7 +249,12 @@ theorem c11_unconvertible (tp : TP) (m : PMetric) (hm : m ∈ tp.metrics) (hty :
 theorem c11_response_never_lost (tps : List TP) : convertResponseRaw [] tps = some (convertResponse tps) :=
   raw_eq tps []
 
-/-- ids are what groups tracepoints: the trigger stored under an id keeps the location of the FIRST tracepoint
+/-- (what is missing for the full statement "placed on the line or on the named method": the hypothesis `NoIdClash`.
+    It cannot be dropped — `c11_id_clash_witness` below — because the grouping key is the TEXT `path#line` /
+    `path#method_name`, which does not determine the place: a method named like a line number, or a '#' inside a path
+    or method name, gives two places one id.  It holds whenever no method name is all digits and neither paths nor
+    method names contain '#'; that implication is not proved here.)
+    ids are what groups tracepoints: the trigger stored under an id keeps the location of the FIRST tracepoint
     with that id.  Placement therefore needs ids to identify PLACES (file + line, or file + method; the START / END /
     CAPTURE position is not interpreted, so a `line_start` and a `line_end` tracepoint of one line share a place and
     satisfy the hypothesis) — see the witness below for ids that do not. -/
@@ -290,6 +297,85 @@ theorem c11_id_clash_witness :
     (convertResponse tps).map (fun g => (g.location, g.actions.map (·.id)))
       = [(.LineLocation "a.py" 10 .START, ["t1", "t2"])] := by
   decide
+
+/-! ### argument VALUES read as integers (`Extracted.TpArgs`: `TracePointConfig.get_arg / get_arg_int`,
+      `LocationAction.__get_int`, translated; `pyInt` = what `int(value)` does with text, None, bool, int, float) -/
+
+/-- **one fallback rule, two implementations** — `LocationAction.__get_int` (`config.get(name, default)`) and
+    `TracePointConfig.get_arg_int` (`if name in args: args[name]` / default) give the same result on EVERY argument map
+    and key: the same integer, the default in the same cases (`ValueError`), and they let the same exceptions out. -/
+theorem c11_get_int_same_fallback (m : Extracted.TpArgs.ArgMap) (k : String) (d : Int) :
+    Extracted.TpArgs.loc_get_int m k d = Extracted.TpArgs.get_arg_int m k d := by
+  unfold Extracted.TpArgs.loc_get_int Extracted.TpArgs.get_arg_int Extracted.TpArgs.get_arg
+  cases List.lookup k m <;> simp
+
+/-- **what is and is not "unparsable"** — the default is used exactly when the key is absent or `int()` of the value
+    raises `ValueError` (text that is no integer, a NaN); a value is used as it is when `int()` accepts it (integer
+    text in ANY Unicode decimal digits with surrounding Unicode spaces, bool, int, finite float truncated); and for
+    `None`, an infinite float or another object `int()` raises `TypeError` / `OverflowError`, which `except ValueError`
+    does NOT catch: the exception leaves `fire_count` / `fire_period` (such values can only come from
+    `register_tracepoint`, the service sends text). -/
+theorem c11_arg_int_table (m : Extracted.TpArgs.ArgMap) (k : String) (d : Int) :
+    (m.lookup k = none → Extracted.TpArgs.get_arg_int m k d = .ok d) ∧
+    (∀ v, m.lookup k = some v →
+      (∀ i, Extracted.TpArgs.pyInt v = .ok i → Extracted.TpArgs.get_arg_int m k d = .ok i) ∧
+      (Extracted.TpArgs.pyInt v = .valueError → Extracted.TpArgs.get_arg_int m k d = .ok d) ∧
+      (∀ c, Extracted.TpArgs.pyInt v = .raised c → Extracted.TpArgs.get_arg_int m k d = .error c)) ∧
+    Extracted.TpArgs.pyInt .none = .raised "TypeError" ∧ Extracted.TpArgs.pyInt .floatNan = .valueError ∧
+    Extracted.TpArgs.pyInt .floatInf = .raised "OverflowError" := by
+  refine ⟨?_, ?_, rfl, rfl, rfl⟩
+  · intro h; simp [Extracted.TpArgs.get_arg_int, Extracted.TpArgs.get_arg, h, Extracted.TpArgs.pyInt]
+  · intro v h
+    refine ⟨?_, ?_, ?_⟩ <;> intros <;>
+      simp_all [Extracted.TpArgs.get_arg_int, Extracted.TpArgs.get_arg]
+
+/-- **the text case is C04's** — for ASCII text the value model agrees with the limiter's: the action's fire count /
+    fire period read through `__get_int` are `Extracted.Limiter.fireCountOf / firePeriodOf` of that text (so every C04
+    theorem about configuration texts is about what `loc_fire_count` returns). -/
+theorem c11_arg_int_ascii (s : String) (hs : ∀ c ∈ s.toList, c.toNat < 128) :
+    Extracted.TpArgs.parseIntU s = Py.parseInt s ∧
+    Extracted.TpArgs.loc_fire_count [("fire_count", .str s)] = .ok (Extracted.Limiter.fireCountOf (some s)) ∧
+    Extracted.TpArgs.loc_fire_period [("fire_period", .str s)] = .ok (Extracted.Limiter.firePeriodOf (some s)) := by
+  have e : Extracted.TpArgs.toAsciiDecimal s = s := by
+    unfold Extracted.TpArgs.toAsciiDecimal
+    have : s.toList.map Extracted.TpArgs.asciiOf = s.toList := by
+      conv => rhs; rw [← List.map_id s.toList]
+      apply List.map_congr_left
+      intro c hc
+      simp [Extracted.TpArgs.asciiOf, hs c hc]
+    rw [this]; simp
+  have hp : Extracted.TpArgs.parseIntU s = Py.parseInt s := by unfold Extracted.TpArgs.parseIntU; rw [e]
+  refine ⟨hp, ?_, ?_⟩
+  · simp only [Extracted.TpArgs.loc_fire_count, Extracted.TpArgs.loc_get_int, List.lookup, beq_self_eq_true,
+      Option.getD_some, Extracted.TpArgs.pyInt, hp, Extracted.Limiter.fireCountOf, Extracted.Limiter.getInt]
+    cases Py.parseInt s <;> rfl
+  · simp only [Extracted.TpArgs.loc_fire_period, Extracted.TpArgs.loc_get_int, List.lookup, beq_self_eq_true,
+      Option.getD_some, Extracted.TpArgs.pyInt, hp, Extracted.Limiter.firePeriodOf, Extracted.Limiter.getInt]
+    cases Py.parseInt s <;> rfl
+
+/-- witness: odd but valid integer texts, and texts that are not integers (Arabic-Indic and Devanagari digits, a
+    no-break space and an ideographic space around the number, PEP 515 underscore, sign; exponent, empty, inner space,
+    mixed scripts are fine digit by digit, a superscript two is no decimal digit) -/
+theorem c11_arg_int_witness :
+    Extracted.TpArgs.parseIntU "١٢" = some 12 ∧ Extracted.TpArgs.parseIntU "-१०" = some (-10) ∧
+    Extracted.TpArgs.parseIntU "\u00a07\u3000" = some 7 ∧ Extracted.TpArgs.parseIntU " 3 " = some 3 ∧
+    Extracted.TpArgs.parseIntU "1_0" = some 10 ∧ Extracted.TpArgs.parseIntU "+2" = some 2 ∧
+    Extracted.TpArgs.parseIntU "1٢" = some 12 ∧
+    Extracted.TpArgs.parseIntU "1e3" = none ∧ Extracted.TpArgs.parseIntU "" = none ∧
+    Extracted.TpArgs.parseIntU "1 0" = none ∧ Extracted.TpArgs.parseIntU "²" = none ∧
+    Extracted.TpArgs.parseIntU "1__0" = none ∧ Extracted.TpArgs.parseIntU "1.5" = none := by decide
+
+/-- witness: why a response must be converted from an EMPTY accumulator (`convert_response` starts with
+    `all_triggers = {}`, checked against the source template; `Trigger.merge_actions` mutates its receiver): were the
+    triggers of the previous response still the accumulator — a long-lived trigger aliased into the next conversion —
+    re-delivering the same response would install every action twice.  Object identity itself is outside this value
+    model: that two successive conversions share no `Trigger` and no action object, and that a later conversion does not
+    change an earlier trigger, is probed on the real objects in every `redeliver` case of the check. -/
+theorem c11_alias_witness :
+    let l : List TP := [⟨"a", "a.py", 2, [], [], []⟩, ⟨"b", "a.py", 2, [("span", "line")], [], []⟩]
+    (convertResponse l).map (fun g => g.actions.map (·.id)) = [["a", "b", "b"]] ∧
+    (convertResponseFrom (convertResponse l) l).map (fun g => g.actions.map (·.id))
+      = [["a", "b", "b", "a", "b", "b"]] := by decide
 
 /-! ### non-vacuity -/
 
